@@ -87,7 +87,7 @@ def stepped_query(rng):
     a, b = (t(1), t(2)) if rng.random() < 0.5 else (t(2), t(1))
     c = {"op": "term", "f": rng.choice(["body", "title"]), "t": rng.choice([[1], [1, 2]]), "b4": 4}
     form = rng.choice(["and", "and", "and3", "andmaybe", "andmaybe", "andmaybe-or", "or", "andor", "dismax",
-                       "andnot-and", "andnot-and", "andnot"])
+                       "andnot-and", "andnot-and", "andnot", "andnot-or", "andnot-or", "dismax-tb"])
     if form == "and":
         return {"op": "and", "kids": [a, b], "b4": 4}
     if form == "and3":
@@ -99,6 +99,13 @@ def stepped_query(rng):
         return {"op": "andnot", "a": {"op": "and", "kids": [a, b], "b4": 4}, "b": c}
     if form == "andnot":
         return {"op": "andnot", "a": a, "b": b if rng.random() < 0.5 else c}
+    if form == "andnot-or":
+        # (the excluded clause is itself a union; the positive side is boosted, so that the threshold of a limited
+        # search passes what either excluded term could score)
+        pos = dict(t(1), b4=rng.choice([8, 16]))
+        return {"op": "andnot", "a": pos, "b": {"op": "or", "kids": [t(2), c], "b4": 4}}
+    if form == "dismax-tb":
+        return {"op": "dismax", "kids": [a, b], "b4": 4, "tb": rng.choice([0.25, 0.5])}
     if form == "andmaybe-or":
         return {"op": "andmaybe", "a": {"op": "or", "kids": [a, c], "b4": 4}, "b": b}
     if form == "or":
